@@ -158,9 +158,43 @@ DIRECTED = [
     ("Select(EventDataset(), lambda e: SelectMany(SelectMany(e.jets, lambda e: e.trks), lambda t: Select(e.trks, lambda u: u.pt + t.pt)))", "capture-selectmany-of-selectmany"),
     ("Select(Select(EventDataset(), lambda e: Where(e.jets, lambda j: j.pt > 1)), lambda s: (Count(Where(s, lambda k: k.eta > 2)), Count(s)))", "shared-argument"),
     ("Select(Select(EventDataset(), lambda a: {'c': SelectMany(a.jets, lambda j: j.trks)}), lambda r: Count(SelectMany(r.c, lambda t: r.c)))", "selectmany-of-selectmany-under-substitution"),
+    ("Select(Select(EventDataset(), lambda e: (e.jets, e.met)), lambda t: Select(t[0], lambda j: Select(j.trks, lambda e: e.pt + t[1])))", "capture-two-levels-below-substitution"),
+    ("Select(EventDataset(), lambda e: Select(Select(e.jets, lambda j: (j, e.met)), lambda t: Select(t[0].trks, lambda k: Select(t[0].trks, lambda e: e.pt + t[1] + k.pt))))", "capture-two-levels-below-substitution-nested"),
+    ("Select(EventDataset(), lambda e: Select(Select(e.jets, lambda j: (j, e.met)), lambda t: Select(t[0].trks, lambda e: e.pt + t[1])))", "capture-one-level-below-substitution-nested"),
+    ("Select(EventDataset(), lambda a: (lambda a, b: a.y - b)(a, a.x))", "called-lambda-later-argument-sees-earlier-parameter"),
+    ("Select(EventDataset(), lambda a: (lambda b, a: a.y - b)(a=a, b=a.x))", "called-lambda-keyword-argument-order"),
     ("Where(EventDataset(), lambda e: True)", "where-true"),
     ("Where(EventDataset(), lambda e: (lambda t: t)(True))", "where-true"),
 ]
+
+
+def targeted_capture(rnd):
+    """The re-use-live family of the design: an inner fusion inside an outer lambda substitutes an argument that mentions
+    outer names (E, J) for T, below which 1-3 further lambdas re-bind names drawn from the same small pool."""
+    pool = ["e", "j", "t", "k"]
+    E, J, T = rnd.choice(pool), rnd.choice(pool), rnd.choice(pool)
+    pack = rnd.choice([f"({J}, {E}.met)", f"({J}, {E}.met + {J}.pt)", f"{{'j': {J}, 'm': {E}.met}}", f"[{J}, {E}.x]"])
+    if pack.startswith("{"):
+        t0, t1 = f"{T}.j", f"{T}['m']"
+    else:
+        t0, t1 = f"{T}[0]", f"{T}[1]"
+    depth = rnd.randint(1, 3)
+    binders = [rnd.choice(pool + [f"w{i}"]) for i in range(depth)]
+    # innermost body uses the innermost binder, the substituted projections and (when not shadowed) outer binders
+    body = f"{binders[-1]}.pt + {t1}" if T not in binders else f"{binders[-1]}.pt"
+    for lvl in range(depth - 1, -1, -1):
+        src = f"{t0}.trks" if T not in binders[:lvl] else f"{binders[lvl - 1]}.trks" if lvl > 0 else f"{t0}.trks"
+        if lvl > 0 and rnd.random() < 0.5 and binders[lvl - 1] not in binders[lvl:]:
+            body = f"{binders[lvl - 1]}.pt + Count(Select({src}, lambda {binders[lvl]}: {body}))"
+        else:
+            body = f"Select({src}, lambda {binders[lvl]}: {body})"
+    inner = f"Select(Select({E}.jets, lambda {J}: {pack}), lambda {T}: {body})"
+    form = rnd.random()
+    if form < 0.5:
+        return f"Select(EventDataset(), lambda {E}: {inner})"
+    if form < 0.75:
+        return f"SelectMany(EventDataset(), lambda {E}: {inner})"
+    return f"Select(Where(EventDataset(), lambda {E}: Count({E}.jets) > 0), lambda {E}: {inner})"
 
 
 def shard_main(ctx):
@@ -179,6 +213,20 @@ def shard_main(ctx):
             ctx.count("stopped-by-time-budget")
             break
         rnd = random.Random((ctx.seed * 1000 + ctx.shard) * 100003 + i)
+        if i % 8 == 7:
+            text = targeted_capture(rnd)
+            try:
+                q = astx.parse_expr(text)
+            except SyntaxError:
+                ctx.count("harness:targeted-syntax-error")
+                continue
+            ctx.count("feature:targeted-reuse-family")
+            try:
+                with case_timeout(4.0):
+                    run_case(ctx, q, datasets(rnd), {"naming": "targeted-reuse", "case_seed": (ctx.seed, ctx.shard, i)})
+            except CaseTimeout:
+                ctx.count("inconclusive:case-timeout")
+            continue
         try:
             g, q, stages, naming, mf = make_case(rnd, i)
         except Exception as e:  # generator failure is a harness problem, counted
